@@ -357,3 +357,46 @@ func PanicFrame(stack, pkgPath string) string {
 	}
 	return "?"
 }
+
+// PanicOrigin returns the function that panicked: the first frame below the runtime's panic machinery.
+func PanicOrigin(stack string) string {
+	lines := strings.Split(stack, "\n")
+	seenPanic := false
+	for i := 0; i < len(lines); i++ {
+		l := strings.TrimSpace(lines[i])
+		if strings.HasPrefix(l, "panic(") {
+			seenPanic = true
+			continue
+		}
+		if !seenPanic || l == "" || strings.HasPrefix(l, "/") || strings.HasPrefix(l, "goroutine ") {
+			continue
+		}
+		if strings.HasPrefix(l, "runtime.") || strings.HasPrefix(l, "runtime/") {
+			continue
+		}
+		return l
+	}
+	return ""
+}
+
+// HarnessPanic reports whether a recovered panic originated in the harness itself (reflection glue,
+// value construction, recording hooks) rather than in generated or library code called by generated code.
+func HarnessPanic(stack string) bool {
+	o := PanicOrigin(stack)
+	if strings.HasPrefix(o, "verifsim/harness.") || strings.HasPrefix(o, "verifsim/values.") || strings.HasPrefix(o, "verifsim/sim.") || strings.HasPrefix(o, "verifsim/hook.") {
+		return true
+	}
+	if strings.HasPrefix(o, "reflect.") {
+		// reflect panics come from harness glue unless a generated frame sits directly above reflect
+		for _, l := range strings.Split(stack, "\n") {
+			l = strings.TrimSpace(l)
+			if strings.HasPrefix(l, "verifsim/gen/") {
+				return false
+			}
+			if strings.HasPrefix(l, "verifsim/harness.") || strings.HasPrefix(l, "verifsim/values.") {
+				return true
+			}
+		}
+	}
+	return false
+}
